@@ -109,6 +109,9 @@ type Options struct {
 	Fuel          int32
 	// KeepOpen leaves runtime for the caller to close (returned in Result).
 	NoDigest bool
+	// HostClose lets the generated programs' "hclose" import really close the calling module
+	// (CloseWithExitCode(7)) when its argument is a multiple of 3; otherwise hclose is a no-op returning 0.
+	HostClose bool
 	// OnReenter is called by the harness's re-entering host function around its
 	// nested api.Function.Call (true before, false after): an activation marker.
 	OnReenter func(enter bool)
@@ -208,7 +211,7 @@ func canonVal(t wenc.ValType, v uint64) uint64 {
 }
 
 // BuildHost instantiates module "env" for p on rt.
-func BuildHost(ctx context.Context, rt wazero.Runtime, p *wgen.Program, hss *hostStates, onReenter ...func(bool)) error {
+func BuildHost(ctx context.Context, rt wazero.Runtime, p *wgen.Program, hss *hostStates, hostClose bool, onReenter ...func(bool)) error {
 	if len(p.Host) == 0 {
 		return nil
 	}
@@ -281,6 +284,19 @@ func BuildHost(ctx context.Context, rt wazero.Runtime, p *wgen.Program, hss *hos
 				}
 				hs.t.add("  hcb: nested f0 -> [%#x]", uint32(res[0]))
 				stack[0] = uint64(uint32(res[0]) + 1)
+			}
+		case "close":
+			fn = func(ctx context.Context, mod api.Module, stack []uint64) {
+				hs := hss.get(mod)
+				arg := uint32(stack[0])
+				if hostClose && arg%3 == 0 && !mod.IsClosed() {
+					mod.CloseWithExitCode(ctx, 7)
+					hs.t.add("  host hclose(%#x) -> closed the module with exit code 7", arg)
+					stack[0] = 1
+					return
+				}
+				hs.t.add("  host hclose(%#x) -> no-op", arg)
+				stack[0] = 0
 			}
 		case "grow":
 			fn = func(ctx context.Context, mod api.Module, stack []uint64) {
@@ -375,7 +391,7 @@ func (s *Session) Instantiate(p *wgen.Program, name string) *Inst {
 	hss := s.hosts[hn]
 	if hss == nil && len(p.Host) > 0 {
 		hss = &hostStates{m: map[api.Module]*hostState{}}
-		if err := BuildHost(s.Ctx, s.Rt, p, hss, s.opt.OnReenter); err != nil {
+		if err := BuildHost(s.Ctx, s.Rt, p, hss, s.opt.HostClose, s.opt.OnReenter); err != nil {
 			t.add("host module error: %v", err)
 			return in
 		}
